@@ -25,6 +25,28 @@
 //! with `ctx.mine`. One fauntlet instance pair per item; one FT library + mmap
 //! per font file per shard.
 //!
+//! Constructive workload (`synth.rs`): the corpus is a sample, the property
+//! quantifies over all static outline fonts, so each shard also BUILDS small
+//! static TrueType fonts (write-fonts + hand-serialised glyf) deterministically
+//! from (VERIF_SEED, font index) and runs the same differential on every glyph
+//! x a per-font ppem list (unscaled, small/medium/large sizes, plus a size at
+//! which some negative component offsets land exactly on half pixels) x
+//! {unscaled, unhinted, interpreter, auto-hinter}. The fonts cover every
+//! component feature of the composite loader (8/16-bit offsets, point anchors
+//! also under a non-zero point base, scale / x-y scale / 2x2, ROUND_XY_TO_GRID,
+//! USE_MY_METRICS, (UN)SCALED_COMPONENT_OFFSET, OVERLAP_COMPOUND, nesting
+//! depth 1..=4 with nested composites first and non-first, empty components),
+//! odd simple glyphs (off-curve starts, all-off-curve, 1-2 point contours,
+//! extreme coordinates, several point encodings) and, for half of the fonts,
+//! small fpgm/prep/cvt/glyph programs (simple and composite) from a
+//! conservative instruction subset. Counters `synthetic_feature:*` say how
+//! often each feature was generated. A fixed probe font (`synth-probe-v1`)
+//! holds the shapes on which skrifa is known to differ from FreeType 2.12.1
+//! (open known findings); the random fonts keep away from exactly those.
+//! Synthetic signature: `ft-mismatch:synth-v<gen>-s<seed>-i<index>:gid=<g>:engine=<e>`;
+//! the replay record carries the generator parameters, the glyph's recipe and
+//! the font bytes, and REPLAY re-runs that glyph at every size.
+//!
 //! Signature: `ft-mismatch:<file>[@face]#<fnv64 of file>:gid=<g>:engine=<none|interpreter|auto>`;
 //! sizes/targets are in the detail, the counter `differing_comparisons:<sig>`
 //! and the distinct set `mismatching_cases`.
@@ -245,8 +267,9 @@ fn run_config(
     ppem: u32,
     mode: Mode,
     gids: &mut dyn Iterator<Item = u32>,
-    synth: Option<&synth::SynthFont>,
+    mut synth_run: Option<&mut SynthRun>,
 ) -> ConfigOutcome {
+    let synth: Option<&synth::SynthFont> = synth_run.as_ref().map(|r| r.font);
     let options = InstanceOptions::new(face.index, ppem, &[], mode.hinting());
     // Instance creation runs fpgm/prep (skrifa) and FT_New_Memory_Face +
     // FT_Set_Pixel_Sizes; a panic in there is not this property's subject.
@@ -290,7 +313,10 @@ fn run_config(
         }
     }
     let is_scaled = ppem != 0;
-    let fkey = font_key(font, face.index);
+    // Synthetic fonts are identified by generator version + seed + index (their
+    // name); the byte hash is left out so that a serialisation change in
+    // write-fonts does not rename known findings.
+    let fkey = if synth.is_some() { font.name.clone() } else { font_key(font, face.index) };
     let fhash = fnv64(fkey.as_bytes());
     let mode_name = mode.name();
     let mode_hash = fnv64(mode_name.as_bytes());
@@ -378,6 +404,26 @@ fn run_config(
             }
             (Some(ft_adv), Ok(sk_adv)) => {
                 compared += 1;
+                if let Some(sr) = synth_run.as_deref_mut() {
+                    // evidence that hinting is actually exercised on synthetic fonts
+                    let dg = path_digest(sk_path);
+                    match mode {
+                        Mode::Unhinted => {
+                            sr.unhinted.insert((ppem, gid), dg);
+                        }
+                        Mode::Hinted(_) => {
+                            if let Some(u) = sr.unhinted.get(&(ppem, gid)) {
+                                if *u != dg {
+                                    ctx.count(&format!("synthetic_hinted_outline_differs_from_unhinted:{}", mode.engine()), 1);
+                                    if sr.font.glyphs.get(gid as usize).map(|g| g.depth > 0).unwrap_or(false) {
+                                        ctx.count(&format!("synthetic_hinted_composite_differs_from_unhinted:{}", mode.engine()), 1);
+                                    }
+                                }
+                            }
+                        }
+                        Mode::Unscaled => {}
+                    }
+                }
                 let path_differs = ft_path != sk_path;
                 let mut adv_differs = false;
                 if let Some(a) = sk_adv {
@@ -478,6 +524,8 @@ pub fn run(ctx: &mut Ctx, _args: &Args) {
         "skrifa built without `autohint_shaping` (default-features=false, features=[std]) exactly like fauntlet".into(),
         "static fonts only (any face with an fvar table is skipped); tricky fonts are compared unscaled/unhinted only, as fauntlet lets FreeType ignore hinting flags for them".into(),
         "advance compared when skrifa reports AdjustedMetrics.advance_width (glyf, auto-hinter) against FT glyph metrics horiAdvance".into(),
+        "synthetic fonts: valid by construction for both engines; kept out of the random fonts (and kept visible in the fixed probe font, open known findings): SCALED_COMPONENT_OFFSET with off-diagonal 2x2 terms, SCALED+UNSCALED both set, numberOfContours==0 glyphs with a header handing on metrics or with lsb/xMin != 0, phantom points moved along the axis FreeType does not round, unscaled coordinates (or spans) beyond int16 under the auto-hinter".into(),
+        "synthetic fonts: auto-hinter comparisons skip glyphs whose |coordinate| (plus shift) leaves the int16 range (FreeType's auto-hinter uses FT_Short arithmetic there); Latin letters map only to stem/bowl-like glyphs (with arbitrary shapes as blue-zone sources 3 unexplained small-size auto-hinter differences were seen in 10 000 fonts); IP is generated only for simple glyphs between reference points that are well apart (otherwise results overflow 32 bits in skrifa but not FreeType's 64-bit FT_Pos)".into(),
     ];
     let fonts = all_fonts();
     let quick = !ctx.tier.is_thorough();
@@ -572,9 +620,52 @@ pub fn run(ctx: &mut Ctx, _args: &Args) {
     ctx.exhaustive = Some(!quick);
 }
 
+/// Per-font state of a synthetic run.
+struct SynthRun<'a> {
+    font: &'a synth::SynthFont,
+    /// digest of skrifa's unhinted outline per (ppem, glyph)
+    unhinted: std::collections::HashMap<(u32, u32), u64>,
+}
+
+fn path_digest(p: &[PathElement]) -> u64 {
+    let mut d = Digest::new();
+    for e in p {
+        match *e {
+            PathElement::MoveTo { x, y } => {
+                d.u32(1);
+                d.f32(x);
+                d.f32(y);
+            }
+            PathElement::LineTo { x, y } => {
+                d.u32(2);
+                d.f32(x);
+                d.f32(y);
+            }
+            PathElement::QuadTo { cx0, cy0, x, y } => {
+                d.u32(3);
+                d.f32(cx0);
+                d.f32(cy0);
+                d.f32(x);
+                d.f32(y);
+            }
+            PathElement::CurveTo { cx0, cy0, cx1, cy1, x, y } => {
+                d.u32(4);
+                d.f32(cx0);
+                d.f32(cy0);
+                d.f32(cx1);
+                d.f32(cy1);
+                d.f32(x);
+                d.f32(y);
+            }
+            PathElement::Close => d.u32(5),
+        }
+    }
+    d.finish()
+}
+
 /// Synthetic fonts per tier (dealt to shards one font at a time).
-const SYNTH_FONTS_QUICK: u32 = 640;
-const SYNTH_FONTS_THOROUGH: u32 = 4800;
+const SYNTH_FONTS_QUICK: u32 = 4000;
+const SYNTH_FONTS_THOROUGH: u32 = 20000;
 
 /// A synthetic font written to a private temporary file (fauntlet maps files).
 struct TempFont {
@@ -639,6 +730,7 @@ fn run_synth_font(ctx: &mut Ctx, stats: &mut Stats, sf: &synth::SynthFont, ppems
     let Some(mut ff) = open_font(ctx, &font.path) else { return };
     let modes = synth_modes(sf);
     let n = face.glyph_count;
+    let mut sr = SynthRun { font: sf, unhinted: Default::default() };
     for &ppem in ppems {
         let mode_list: Vec<Mode> = if ppem == 0 { vec![Mode::Unscaled] } else { modes.clone() };
         for mode in mode_list {
@@ -647,9 +739,21 @@ fn run_synth_font(ctx: &mut Ctx, stats: &mut Stats, sf: &synth::SynthFont, ppems
                     if mode.engine() != engine {
                         continue;
                     }
-                    run_config(ctx, stats, &mut ff, &font, &face, ppem, mode, &mut std::iter::once(gid), Some(sf))
+                    run_config(ctx, stats, &mut ff, &font, &face, ppem, mode, &mut std::iter::once(gid), Some(&mut sr))
                 }
-                None => run_config(ctx, stats, &mut ff, &font, &face, ppem, mode, &mut (0..n), Some(sf)),
+                None => {
+                    if matches!(mode, Mode::Hinted(Hinting::Auto(_))) {
+                        // FreeType's auto-hinter does FT_Short arithmetic on font units;
+                        // glyphs with very large coordinates are outside its sane domain
+                        // (the probe font keeps two such cases visible)
+                        let skipped = sf.glyphs.iter().filter(|g| !g.autohint_ok).count() as u64;
+                        ctx.count("synthetic_auto_comparisons_skipped:huge_coordinates", skipped);
+                        let mut gids = (0..n).filter(|g| sf.glyphs.get(*g as usize).map(|x| x.autohint_ok).unwrap_or(true));
+                        run_config(ctx, stats, &mut ff, &font, &face, ppem, mode, &mut gids, Some(&mut sr))
+                    } else {
+                        run_config(ctx, stats, &mut ff, &font, &face, ppem, mode, &mut (0..n), Some(&mut sr))
+                    }
+                }
             };
             match outcome {
                 ConfigOutcome::Ran => ctx.count("synthetic_configs_run", 1),
@@ -879,7 +983,6 @@ fn replay(ctx: &mut Ctx, _args: &Args, rec: &Value, _bytes: Option<&[u8]>) {
         replay_synthetic(ctx, d, _bytes);
         return;
     }
-    let synth_font: Option<synth::SynthFont> = None;
     let Some(name) = d["font"].as_str().and_then(|s| s.split('#').next()) else {
         ctx.inconclusive("replay record without font");
         return;
@@ -910,7 +1013,7 @@ fn replay(ctx: &mut Ctx, _args: &Args, rec: &Value, _bytes: Option<&[u8]>) {
                 continue;
             }
             let mut gids = std::iter::once(gid);
-            run_config(ctx, &mut stats, &mut ff, font, face, ppem, mode, &mut gids, synth_font.as_ref());
+            run_config(ctx, &mut stats, &mut ff, font, face, ppem, mode, &mut gids, None);
         }
     }
 }
